@@ -129,6 +129,7 @@ fn main() {
             0
         }
         "c04-one" => props::c04::replay(&arg(&args, "--cmds").unwrap()),
+        "c04-long" => props::c04::replay_very_long(arg(&args, "--plies").unwrap().parse().unwrap()),
         "c08" => {
             props::c08::run(&tier, seed, &out);
             0
